@@ -35,6 +35,8 @@ fn subsets(phases: u8, n_inst: u8) -> Vec<FamParams> {
             rows: 1 + (m % 3) as u8,
             fx_tweak: 0,
             rot_first: m % 5 == 2,
+            lookup_nz: m % 4 == 1,
+            copy_dup: m % 3 == 1,
         });
     }
     v
